@@ -2,9 +2,9 @@
 
 Correspondence stream `c16`: the real `LinearConstraints.from_spec(spec, names)` (and, for a share of
 the cases, `ModelSpec.get_linear_constraints`) against `Model.Constraints.fromSpec`. The model starts
-at the abstract syntax tree: the harness asks the REAL parser (`LinearConstraintParser.get_ast`) for
-the tree of every string the code will parse and forwards it (parser = parameter of the model; it is
-the subject of C01/C14/C15).
+at the string: `Model/ConstraintParse.lean` tokenises and parses it (base operator resolver, live
+constraint table); the harness also asks the REAL parser (`LinearConstraintParser.get_ast`) for the
+tree of every string the code will parse and the two trees / rejections are compared.
 
 Oracle (impl only, independent of model and of formulaic's parser): a small recursive-descent reader
 of conventional algebra evaluates lhs - rhs with `fractions.Fraction`
@@ -30,11 +30,16 @@ REQUIRED_THEOREMS = [
     "npoint_test_complete",
     "operator_table_covered",
     "error_class_covered",
+    "parser_refines_general",
+    "parser_fails_only_with_syntax_error",
+    "compile_sound_from_string",
 ]
 TRUSTED = [
-    "parameter of the model: tokenizer + shunting-yard (formulaic.parser.algos.*). The harness obtains the AST of every "
-    "string from the real LinearConstraintParser.get_ast and forwards it; what the parser does is the subject of C01/C14/C15. "
-    "The oracle uses its own independent recursive-descent reader, so a mis-parse (precedence, associativity) still surfaces here.",
+    "modelled and compared per case: LinearConstraintParser.get_ast = tokenizer + shunting-yard with the base operator resolver over the "
+    "live constraint operator table (Model/ConstraintParse.lean; character classes from the live regexes). The model parses every string "
+    "itself; its tree / rejection is compared with the real parser's for every string of every case, and the matrix is compiled from the "
+    "model's own tree. The theorems compile_sound … are proved for ANY parse function, hence also for this one (compile_sound_from_string). "
+    "The oracle uses its own independent recursive-descent reader, so a mis-parse (precedence, associativity) surfaces against conventional algebra too.",
     "modelled, not verified: ast.literal_eval on [0-9.]+ tokens (Model.Constraints.parseNumber), numpy array assembly, "
     "graphlib scheduling inside ASTNode.to_terms (irrelevant for successful evaluations; on failure the model reports the set "
     "of error classes any schedule / set order could raise and the implementation's class must be one of them)",
@@ -549,7 +554,15 @@ def _request_one(c, o):
     spec = c["spec"]
     if c["form"] == "dict":
         spec = [[k, _frac(Fraction(v))] for k, v in c["spec"]]
-    return dict(names=c["names"], form=c["form"], spec=spec, parses=o.get("parses", []))
+    from harness.parser_common import char_flags
+
+    # every string the code parses goes to the model as characters + the live regex classes: the model's
+    # own tokenizer + shunting-yard (Model/ConstraintParse.lean, live constraint operator table) parse it
+    parses = []
+    for k, v in o.get("parses", []):
+        w, sp = char_flags(k)
+        parses.append([k, v, dict(s=k, w=w, sp=sp)])
+    return dict(names=c["names"], form=c["form"], spec=spec, parses=parses)
 
 
 def agree(c, o, m):
@@ -570,6 +583,11 @@ def agree(c, o, m):
 
 
 def _agree_one(c, o, m):
+    if m.get("error") != "unmodelled":
+        pm = dict((k, v) for k, v in m.get("pm", []))
+        for k, v in o.get("parses", []):
+            if pm.get(k) != v:
+                return f"LinearConstraintParser.get_ast({k!r}): impl {v} vs model parser {pm.get(k)}"
     if m.get("error") == "unmodelled":
         return "the AST contains an operator outside the modelled constraint table"
     if "error" in o:
